@@ -222,7 +222,7 @@ def suiteTrTrans (kvs : List (String × String)) (lines : List (String × String
   let jobs : List Conc.Trans.Job := ((kvGet kvs "ops").getD "").toList.map fun ch =>
     if ch == 'O' || ch == 'F' then .open else if ch == 'C' then .close true false else .close false true
   -- an override flipped during the run ('X') is outside the static-flag model: such traces are not judged here
-  if ((kvGet kvs "ops").getD "").toList.any (fun ch => ch == 'X' || ch == 'Y' || ch == 'Z') || kvNat kvs "fo0" 0 == 1 then lines.map fun _ => "skip\t-" else
+  if ((kvGet kvs "ops").getD "").toList.any (fun ch => ch == 'X' || ch == 'Y' || ch == 'Z' || ch == 'V' || ch == 'W') || kvNat kvs "fo0" 0 == 1 || kvNat kvs "fc0" 0 == 1 then lines.map fun _ => "skip\t-" else
   (TrTrans.conform (Conc.Trans.init false false (kvBool kvs "init" false) jobs) (lines.map (·.1))).map fun r => r ++ "\t-"
 
 end CM
